@@ -172,7 +172,7 @@ char ZCK_PUBLIC_API *zck_get_range_char(zckCtx *zck, zckRange *range) {
             free(output);
             return NULL;
         }
-        if(length > buf_size-loc) {
+        if(length >= buf_size-loc) {
             buf_size = (int)(buf_size * 1.5);
             output = zrealloc(output, buf_size);
             if (!output) {
@@ -185,7 +185,8 @@ char ZCK_PUBLIC_API *zck_get_range_char(zckCtx *zck, zckRange *range) {
         count++;
         ri = ri->next;
     }
-    output[loc-1]='\0'; // Remove final comma
+    if(loc > 0)
+        output[loc-1]='\0'; // Remove final comma
     output = zrealloc(output, loc);
     return output;
 }
